@@ -258,6 +258,14 @@ static void keyed_hash_family(size_t keylen, size_t inlen, size_t outlen)
     ascon_hkdfa(out, outlen, k, keylen, 0, 0, 0, 0);
     {   ascon_hkdf_state_t st; ascon_hkdf_extract(&st, k, keylen, salt, 9); ascon_hkdf_expand(&st, cu, 10, out, outlen / 2); ascon_hkdf_expand(&st, cu, 10, out, outlen - outlen / 2); ascon_hkdf_free(&st); }
     ascon_pbkdf2(out, outlen > 40 ? 40 : outlen, k, keylen, salt, 9, 3);
+    {   /* two consecutive derivations with different secret passwords of the same length (a cache keyed on the customisation
+           string of the cXOF would compare the passwords) */
+        uint8_t *k2 = secret(keylen);
+        ascon_pbkdf2(out, 24, k2, keylen, salt, 9, 1);
+        ascon_pbkdf2(out, 24, k, keylen, salt, 9, 1);
+        ascon_pbkdf2_hmac(out, 24, k2, keylen, salt, 9, 1);
+        gfree(k2);
+    }
     ascon_pbkdf2_hmac(out, outlen > 40 ? 40 : outlen, k, keylen, salt, 9, 2);
     ops += 12;
     vf_distinct("ct|keyed-hash|key%zu|in%zu|out%zu", keylen, inlen, outlen);
